@@ -2,13 +2,14 @@
 (Dart is_contiguous_enum, JS gen_enum's is_contiguous)."""
 import re
 from rsrc import Src, Piece
-from verus_engine import VerusFile
+from verus_engine import VerusFile, CANARY
 from common import Undecided
 import vhelp
 
 NAME = "enum_contiguous"
 ENGINE = "verus"
-PROPERTIES = {"C11": "Dart and JS use variant index as the numeric value only when index == discriminant for every variant"}
+PROPERTIES = {"C11": "Dart, JS and Kotlin use variant index as the numeric value only when index == discriminant for every variant; Kotlin's non-contiguous table carries each variant's discriminant"}
+KT = "tool/src/kotlin/mod.rs"
 DART = "tool/src/dart/mod.rs"
 JS = "tool/src/js/gen.rs"
 DEFS = "core/src/hir/defs.rs"
@@ -21,6 +22,8 @@ global size_of usize == 8;
 #[verifier::external_body] pub struct Method { x: u8 }
 #[verifier::external_body] pub struct SpecialMethodPresence { x: u8 }
 pub mod hir { pub use super::EnumDef; pub use super::EnumVariant; }
+// std integer helpers without a vstd specification
+pub assume_specification[isize::unsigned_abs](x: isize) -> (r: usize) ensures r as int == (if x < 0 { -(x as int) } else { x as int });
 """
 SPEC = r"""
 // oracle (property statement): value of variant j in the binding == its Rust discriminant, so the index may stand in for the
@@ -49,6 +52,69 @@ E7_TEMPLATE = """{{
     }}"""
 
 
+KT_PRELUDE = r"""
+// ---- Kotlin: EnumVariants::new folds the variants with a step closure; E3: Cow<'d, str> carried opaquely
+#[verifier::external_body] pub struct CowStr { x: u8 }
+pub uninterp spec fn name_of(v: &EnumVariant) -> CowStr;
+#[verifier::external_body] pub fn __name_of(v: &EnumVariant) -> (r: CowStr) ensures r == name_of(v) { unimplemented!() }
+// E7: `vec.into_iter().enumerate().map(|(index, name)| NonContiguousEnumVariant { name, index: index as i32 }).chain(once(X)).collect()`
+// (std-documented meaning: the old names renumbered by position, then X appended)
+#[verifier::external_body]
+pub fn __renumber_then_push(vec: Vec<CowStr>, x: NonContiguousEnumVariant) -> (r: Vec<NonContiguousEnumVariant>)
+    ensures r@.len() == vec@.len() + 1, r@[vec@.len() as int] == x,
+        forall|k: int| 0 <= k < vec@.len() ==> (#[trigger] r@[k]).index == k as i32 && r@[k].name == vec@[k],
+{ unimplemented!() }
+"""
+KT_SPEC = r"""
+// oracle: after folding the first n variants, the state is Contiguous iff discriminant(k) == k for all k < n (then it lists the
+// names in order); otherwise it lists (name, discriminant) for every one of the n variants
+pub open spec fn prefix_contiguous(e: &EnumDef, n: int) -> bool {
+    forall|j: int| 0 <= j < n ==> (#[trigger] e.variants@[j]).discriminant == j
+}
+pub open spec fn state_ok(s: EnumVariants, e: &EnumDef, n: int) -> bool {
+    match s {
+        EnumVariants::Contiguous(vec) => prefix_contiguous(e, n) && vec@.len() == n && forall|k: int| 0 <= k < n ==> #[trigger] vec@[k] == name_of(&e.variants@[k]),
+        EnumVariants::NonContiguous(vec) => !prefix_contiguous(e, n) && vec@.len() == n
+            && forall|k: int| 0 <= k < n ==> (#[trigger] vec@[k]).index == e.variants@[k].discriminant as i32 && vec@[k].name == name_of(&e.variants@[k]),
+    }
+}
+"""
+
+
+def build_kotlin(vf):
+    kt = Src(KT)
+    base = "impl TyGenContext<'_,'cx>::fn gen_enum_def::"
+    vf.add(KT_PRELUDE)
+    sub = [("E3", r"Cow<'d, str>", "CowStr")]
+    vhelp.typedef(vf, kt, base + "NonContiguousEnumVariant", "struct", subs=sub + [("E12", r"<'d>", ""), ("E1", r"(?m)^(\s+)(index|name):", r"\1pub \2:")])
+    vhelp.typedef(vf, kt, base + "EnumVariants", "enum", subs=sub + [("E12", r"NonContiguousEnumVariant<'d>", "NonContiguousEnumVariant"), ("E12", r"<'d>", "")])
+    vf.add(KT_SPEC)
+    it = kt.item(base + "impl EnumVariants<'d>::new", "fn")
+    cls = it.get("closures", [])
+    if not cls:
+        raise Undecided("anchor-lost", "EnumVariants::new: fold closure not found")
+    c0, c1 = cls[0]["start"], cls[0]["end"]
+    ctext = kt.slice(c0, c1)
+    m = re.match(r"\|\s*(\w+)\s*,\s*\(\s*(\w+)\s*,\s*(\w+)\s*\)\s*\|\s*", ctext)
+    if not m or not re.search(r"\.iter\(\)\s*\.enumerate\(\)\s*\.fold\(\s*EnumVariants::Contiguous\(Vec::with_capacity\(\w+\)\),\s*$", kt.slice(it["body_open"], c0)):
+        raise Undecided("anchor-lost", "EnumVariants::new is no longer `ty.variants.iter().enumerate().fold(Contiguous(empty), |acc, (i, v)| ..)`")
+    acc, iv, vv = m.groups()
+    frag = {"start": c0 + m.end(), "after_attrs": c0 + m.end(), "end": c1, "path": it["path"] + "#fold step closure", "loops": []}
+    p = Piece(kt, frag)
+    p.sub("E7", r"vec\s*\.into_iter\(\)\s*\.enumerate\(\)\s*\.map\(\|\(index, name\)\| NonContiguousEnumVariant \{\s*name,\s*index: index as i32,\s*\}\)\s*\.chain\(once\((NonContiguousEnumVariant \{[^}]*\})\)\)\s*\.collect\(\)",
+          r"__renumber_then_push(vec, \1)", count=None, flags=re.S, why="adapter chain with std-documented meaning -> specified helper")
+    p.sub("E6", rf"{vv}\.name\.as_str\(\)\.into\(\)", f"__name_of({vv})", count="+", why="variant name carried opaquely")
+    origin = {"file": KT, "item": frag["path"], "line": kt.line_of(c0), "end_line": kt.line_of(c1)}
+    vf.add(f"// E18: the step closure of `ty.variants.iter().enumerate().fold(EnumVariants::Contiguous(vec![]), |{acc}, ({iv}, {vv})| ..)` as a function\n"
+           f"fn kotlin_enum_fold_step({acc}: EnumVariants, {iv}: usize, {vv}: &EnumVariant, Ghost(e): Ghost<&EnumDef>) -> (r: EnumVariants)\n"
+           f"    requires 0 <= {iv} < e.variants@.len(), e.variants@.len() <= 0x7fff_ffff_ffff_ffff, *{vv} == e.variants@[{iv} as int], state_ok({acc}, e, {iv} as int),\n"
+           f"    ensures {CANARY} state_ok(r, e, {iv} as int + 1),\n{{\n    ", origin=origin)
+    vf.add(p.render(), origin=origin, edits=p.log)
+    vf.add("\n}\n")
+    vf.functions.append({"path": frag["path"], "file": KT, "line": kt.line_of(c0), "end_line": kt.line_of(c1), "engine": "verus", "mode": "verus (closure hoisted, E18)", "bound": "none"})
+    vf.expected.append("kotlin_enum_fold_step")
+
+
 def e7(text):
     pat = re.compile(r"(\w+)\s*\.variants\s*\.iter\(\)\s*\.enumerate\(\)\s*\.all\(\|\(i, v\)\| ([^)]+)\)")
     ms = list(pat.finditer(text))
@@ -75,7 +141,7 @@ def build(tier):
     vf.add(SPEC)
     p = Piece(dart, dart.item("is_contiguous_enum", "fn"))
     p.expect_loops(0)
-    p.contract("    requires ty.variants@.len() <= 0x7fff_ffff_ffff_ffff,\n    ensures r == contiguous(ty),", ret_name="r")
+    p.contract("    requires ty.variants@.len() <= 0x7fff_ffff_ffff_ffff,\n    ensures " + CANARY + " r == contiguous(ty),", ret_name="r")
     p.fn("E7", e7, why="iterator adapter chain desugared to a loop")
     vf.add_piece(p, expected="is_contiguous_enum")
     # JS: the first statement of gen_enum computes the same flag inline; extracted as a statement fragment
@@ -94,19 +160,22 @@ def build(tier):
     p.fn("E7", e7, why="iterator adapter chain desugared to a loop")
     body = p.render()
     vf.add("// E15: statement fragment of tool/src/js/gen.rs gen_enum wrapped in a function (the statement only reads enum_def)\n"
-           "fn js_gen_enum_is_contiguous(enum_def: &EnumDef) -> (r: bool)\n    requires enum_def.variants@.len() <= 0x7fff_ffff_ffff_ffff,\n    ensures r == contiguous(enum_def),\n{\n        ",
+           "fn js_gen_enum_is_contiguous(enum_def: &EnumDef) -> (r: bool)\n    requires enum_def.variants@.len() <= 0x7fff_ffff_ffff_ffff,\n    ensures " + CANARY + " r == contiguous(enum_def),\n{\n        ",
            )
     vf.add(body, origin={"file": JS, "item": frag["path"], "line": js.line_of(st[0]), "end_line": js.line_of(st[1])}, edits=p.log)
     vf.add("\n        is_contiguous\n}\n")
     vf.functions.append({"path": frag["path"], "file": JS, "line": js.line_of(st[0]), "end_line": js.line_of(st[1]), "engine": "verus", "mode": "verus (statement fragment)", "bound": "none"})
     vf.expected.append("js_gen_enum_is_contiguous")
+    build_kotlin(vf)
     vf.add(vhelp.FOOTER)
     return vf
 
 
+CANARY_FUNCTIONS = ["is_contiguous_enum", "js_gen_enum_is_contiguous", "kotlin_enum_fold_step"]
 ASSUMPTIONS = [
     "A-iter (E7): Iterator::enumerate().all(P) over a slice == forall index. P is side-effect free",
     "number of variants <= isize::MAX (Vec of a non-zero-sized element type), 64-bit usize",
     "E15: the `let is_contiguous = ..` statement of gen_enum is verified in isolation (it reads only enum_def)",
+    "Kotlin: only the step closure of EnumVariants::new's fold is verified (E18), against the inductive state invariant state_ok; that Iterator::fold applies it to variants 0..n in order starting from Contiguous([]) is the std-documented meaning (trusted); the renumbering adapter chain is replaced by a specified helper (E7); names are opaque",
 ]
-UNVERIFIED = {"C11": ["ast::Enum::new discriminant inference (closure over syn nodes)", "C/C++/nanobind/Kotlin numeric tables printed by templates", "enum.dart.jinja / enum.js.jinja use of the flag (template text)"]}
+UNVERIFIED = {"C11": ["ast::Enum::new discriminant inference (closure over syn nodes)", "C/C++/nanobind numeric tables printed by templates", "Enum.kt.jinja use of EnumVariants", "enum.dart.jinja / enum.js.jinja use of the flag (template text)"]}
